@@ -4,10 +4,13 @@ import "gmcheck/core"
 
 func init() {
 	Props["C09"] = PropDef{
-		Explanation: "R-RAWREAD: every direct Read([]byte) method call in the module is a forwarding Read wrapper or a one-byte read whose count is used; all other reads go through full-read primitives.",
+		Explanation: "R-RAWREAD: every direct Read([]byte) method call in the module is a forwarding Read wrapper or a one-byte read whose count is used; all other reads go through full-read primitives. R-ERRFLOW on nbt, nbt/dynbt, net/packet, net: the error of every call is looked at unless the callee writes to an in-memory sink, and on the err != nil edge of the plain failure idiom the function returns a non-nil error. R-NOBUF: no buffering reader / read-to-EOF (which cannot detect a short body) on the decode paths.",
 		Run: func(c *Ctx) []core.Ob {
 			var obs []core.Ob
 			obs = append(obs, c.RawRead()...)
+			in := pkgPred("nbt", "nbt/dynbt", "net/packet", "net")
+			obs = append(obs, c.ErrFlow(in, in)...)
+			obs = append(obs, c.NoReadAhead()...)
 			return obs
 		},
 	}
